@@ -171,7 +171,7 @@ def gen_instance(rng, profile="mixed", nj=None, nm=None):
             if rng.random() < 0.7:
                 init["t-%d" % t] = {"location": "m-%d" % rng.randrange(nm)}
     if rng.random() < 0.3:
-        init["start_time"] = rng.choice([7, 1000])
+        init["start_time"] = rng.choice([7, 1000, -3, -8])
     feats["start_time"] = init.get("start_time", 0)
     if init:
         d["init_state"] = init
